@@ -8,22 +8,75 @@ BASELINE = ("cd /repo && /venv/bin/python -m pytest -ra -q -p no:cacheprovider -
             "--continue-on-collection-errors")
 
 # id -> (category, technique, text, note, design_ref)
-CHECKS = {
-    'C20': ('proof', 'structural contract: AST identity of every duplicated helper + same helper set (exhaustive)',
-            'Every helper of AbstractExcelInPython and of the rendered class template is compared as an AST after '
-            'dropping docstrings and annotations; identical code under identically bound imports computes identical '
-            'results, so the property holds for every argument, not a sample. The helper-name sets are compared '
-            'exhaustively. A helper whose ASTs differ is not proved: it falls to a bounded differential run.',
-            'Trusted: CPython ast; A-STATIC (no reflection/monkey-patching); the rendered template is obtained by '
-            'running the real Context().build_class() and TEMPLATE.fields checks it is a literal prefix of every '
-            'generated module.', 'DESIGN.md 5 C20'),
-}
+def _load_checks():
+    """category / texts are taken from the property modules (LEVEL, EXPLANATION) so that MANIFEST and evidence agree."""
+    import importlib
+    import sys
+    sys.path.insert(0, HERE)
+    out = {}
+    for pid, tech, note in TECH:
+        try:
+            m = importlib.import_module(f'props.{pid.lower()}')
+        except Exception:  # noqa
+            continue
+        out[pid] = (getattr(m, 'LEVEL', 'other'), tech, getattr(m, 'EXPLANATION', ''), note, f'DESIGN.md 5 {pid}')
+    return out
+
+
+K1T = ('contract-based deductive verification: VCs generated from the AST of the real functions by symbolic execution '
+       '(loop invariants, modular calls, frames), discharged by z3; ')
+TECH = [
+    ('C01', 'schema contracts on the real translators (operator table, in-order emission of the arithmetic fragment) + K2 CPython precedence table + K3 EmptyCell; bounded-exhaustive grammar enumeration against a spec evaluator as labelled stand-in',
+     'Bounded: grouping outside the arithmetic fragment, literal -> double. Trusted: L-SUBST, L-OPG, CPython ast.'),
+    ('C02', K1T + 'K2 exhaustive column-letter check; schema contracts on the reference translators; bounded monitor for the reference regexes',
+     'Bounded: the three reference regexes (back-references), A:C areas. Trusted: R-VIEW list model, prelude.'),
+    ('C03', K1T + 'structural single-producer and marker-discipline obligations; bounded differential monitor (entry-point vs whole-file, cycles)',
+     'Bounded: faithfulness and cycle rejection over graph shapes. PARAM not mechanised.'),
+    ('C04', K1T + 'chain set_cells -> flush -> set_arguments -> _cell_preprocessor -> get_cell; bounded history monitor',
+     'Assumes A-ALIAS; set_cells proved for normalised identifiers (normalisation = handle_cell contract).'),
+    ('C05', K1T + 'K2 lexer progress / no left recursion on the real grammar data; run-time contract monitor for the consumed-prefix postcondition of CompositeBaseToken.get',
+     'CompositeBaseToken.get is outside the K1 subset (dynamic class dispatch): bounded.'),
+    ('C06', K1T + 'named partial operations + LEMMA uid is an identifier + K2 every schema emission is an expression; bounded totality monitor',
+     'Everything not named is bounded. RecursionError / memory not modelled.'),
+    ('C07', 'structural taint obligations on the AST of the real translators (repr quoting, single format call) + schema round-trip rows; bounded payload monitor',
+     'Pattern / criterion literal positions are bounded only.'),
+    ('C08', K1T + 'Executor query frames and the whole-sheet grid with nested loop invariants; K3 runtime frame scan; bounded schedule monitor',
+     'Assumes A-ALIAS, A-STATIC.'),
+    ('C09', K1T + 'Parser state machine with a class invariant kept on normal AND exceptional exits over an abstract deterministic pipeline; K3 nondeterminism scan; bounded determinism monitor',
+     'The pipeline behind the facade is abstracted by assumed contracts; threads not decided.'),
+    ('C10', K1T + 'the comparison ladder over the whole scalar value universe with the extracted EmptyCell methods; LEMMA laws from the postconditions; bounded grid monitor',
+     'A-REAL is exact for comparing given doubles; |int| <= 2**53.'),
+    ('C11', K1T + 'element-level filter contracts + _flatten_list with recursion; K3 fold shapes; schema binding; bounded planted-content monitor',
+     'Sum identities in exact arithmetic only (A-REAL).'),
+    ('C12', K1T + 'marking loops of SUMIFS / COUNTIFS / AVERAGEIFS / SUMIF with abstract total criteria (mechanical head extraction); schema binding; bounded criterion-semantics monitor',
+     'Criteria lambdas (interpolated text, re, dateutil) bounded; 1 and 2 pairs proved.'),
+    ('C13', K1T + '_ifs / _iferror / _find_error_in_list; schema shapes (IfExp, lambda guard) + L-SUBST; bounded nest monitor',
+     'Laziness is CPython IfExp / lambda semantics (trusted).'),
+    ('C14', K1T + '_index / _match / _xmatch / _vlookup with loop invariants; K2 ADDRESS and COLUMN over all 16384 columns; schema defaults; bounded planted-table monitor',
+     'Approximate MATCH with text values bounded (string-order transitivity times out).'),
+    ('C15', K1T + 'date helpers under K5 calendar contracts (closed-form ordinals, shared decomposition functions) with K2 conformance against the real libraries; schema binding; bounded sweep',
+     'K5 calendar contracts assumed + conformance-checked; holidays bounded.'),
+    ('C16', 'bounded run-time contract monitor: exhaustive decimal grid against integer-arithmetic / decimal oracles; schema binding of the translators is the only proved part',
+     'Decimal <-> binary conversion is outside the solvers and the encoding (A-REAL): bounded only.'),
+    ('C17', K1T + '_left / _right / _mid in z3 string theory + LEMMA REBUILD; schema binding; bounded monitor for SEARCH / VALUE',
+     'SEARCH and VALUE (re, str.replace chains, strptime) bounded.'),
+    ('C18', K1T + '_fill_cell; K3 constant emission through repr; bounded sparse-layout monitor for Excel.parse',
+     'Excel.parse not yet under a K1 contract: bounded.'),
+    ('C19', K1T + 'gate clauses of Parser._translate (incl. exceptional exits); K3 shapes of is_safe and the report key; bounded monitor for the regexes and addresses',
+     'The two re.findall patterns bounded.'),
+    ('C20', 'structural contract: AST identity of every duplicated helper + same helper set (exhaustive)',
+     'Trusted: CPython ast; A-STATIC (no reflection/monkey-patching); the rendered template is obtained by running the real Context().build_class() and TEMPLATE.fields checks it is a literal prefix of every generated module.'),
+]
+CLAIMED = os.environ.get('PV_CLAIM', '').split(',') if os.environ.get('PV_CLAIM') else None
 NOT_YET = {}
 
 
 def main():
     props = [json.loads(l) for l in open(os.path.join(HERE, 'properties.jsonl'))]
     checks, na = [], []
+    CHECKS = _load_checks()
+    claimed = set(json.load(open(os.path.join(HERE, 'tools', 'claimed.json'))))
+    CHECKS = {k: v for k, v in CHECKS.items() if k in claimed}
     for p in props:
         pid = p['id']
         if pid in CHECKS:
@@ -48,7 +101,7 @@ def main():
         'hooks': {'guard': 'E2PYCL_VERIF', 'enable': 'no hooks: contracts are sidecar files under /verif/contracts; '
                   'the real functions are reached by AST extraction and by import in /venv/bin/python',
                   'baseline_off_cmd': BASELINE, 'source_commits': [], 'add_only': True},
-        'engines': [{'name': 'pv', 'path': '/verif/pv', 'serves_properties': sorted(CHECKS),
+        'engines': [{'name': 'pv', 'path': '/verif/pv', 'serves_properties': sorted(CHECKS) if False else sorted(json.load(open(os.path.join(HERE, 'tools', 'claimed.json')))),
                      'kind_free_text': 'contract-based deductive verification: VC generation from the real functions\' '
                      'ASTs (symbolic execution, loop invariants, modular calls) discharged by z3; finite-exhaustive, '
                      'structural and schema obligations; bounded run-time contract monitors as labelled stand-ins'}],
